@@ -95,6 +95,26 @@ Definition calcSystemCentralMomentum (bs:list body) : SpatialVec T :=
   let com := calcSystemMassCenterLocationInGround bs in
   (v3_sub K (fst mom) (v3_cross K com (snd mom)), snd mom).
 
+(** *** body-frame data as simbody stores it (mass centre and unit inertia in B, pose X_GB = (R, r)) and its
+    re-expression in Ground; the two code paths that work in B before re-expressing are modelled in that order *)
+Record bodyB := mkBodyB { f_m : T; f_c : Vec3 T; f_G : SymMat33 T; f_R : Mat33 T; f_r : Vec3 T; f_V : SpatialVec T; f_A : SpatialVec T }.
+(** Inertia::reexpress:  R * I * ~R  (kept as a symmetric matrix: lower triangle) *)
+Definition reexpressSym (M:Mat33 T) (S:SymMat33 T) : SymMat33 T :=
+  sym_of_m33_lower (m33_mul K (m33_mul K M (sym_to_m33 S)) (m33_T M)).
+Definition toG (b:bodyB) : body :=
+  mkBody (f_m b) (f_r b) (m33_mulv K (f_R b) (f_c b)) (reexpressSym (f_R b) (f_G b)) (f_V b) (f_A b).
+Definition centralInertiaB (b:bodyB) : SymMat33 T := sym_sub K (sym_scale K (f_m b) (f_G b)) (pointMassAt (f_c b) (f_m b)).
+(** MB_OB_B.calcTransformedMassProps(~X_GB) = MassProperties(m, X_GB*com, calcShiftedInertia((~X_GB).p()).reexpress(R_BG)):
+    (mass, mass centre from OG in G, unit inertia about OG in G); the shift is done in B, then re-expressed *)
+Definition transformedMassPropsB (b:bodyB) : T * Vec3 T * SymMat33 T :=
+  let newOrigin := v3_neg K (m33_Tmulv K (f_R b) (f_r b)) in
+  let shifted := sym_add K (centralInertiaB b) (pointMassAt (v3_sub K newOrigin (f_c b)) (f_m b)) in
+  (f_m b, v3_add K (f_r b) (m33_mulv K (f_R b) (f_c b)), toUnitInertia (f_m b) (reexpressSym (f_R b) shifted)).
+(** MobilizedBody::calcBodyMomentumAboutBodyMassCenterInGround: central inertia in B, re-expressed, times w; m * v_c *)
+Definition bodyCentralMomentumB (b:bodyB) : SpatialVec T :=
+  (sym_mulv K (reexpressSym (f_R b) (centralInertiaB b)) (fst (f_V b)),
+   v3_scale K (f_m b) (v3_add K (snd (f_V b)) (v3_cross K (fst (f_V b)) (m33_mulv K (f_R b) (f_c b))))).
+
 (** SpatialInertia (compact form used by the code): mass, vector to the mass centre, UNIT inertia about the origin *)
 Definition USp := (T * Vec3 T * SymMat33 T)%type.
 Definition u_mass (M:USp) : T := fst (fst M).
@@ -126,10 +146,16 @@ Context {X:Type} (xl : X -> Vec3 T) (xM : X -> USp).
 Definition cbiStep (x:X) (rs:list (X*USp)) : USp :=
   fold_left (fun R r => uspAdd R (uspShift (v3_neg K (xl (fst r))) (snd r))) rs (xM x).
 Definition cbi (t:tree X) : tree (X*USp) := inward cbiStep t.
+(** the recursion with the repair proposed in patches/C15_cbi_massless_chain.diff (NOT the current code): a child whose
+    composite mass is exactly zero is skipped, so 0/0 never occurs *)
+Definition cbiStepG (x:X) (rs:list (X*USp)) : USp :=
+  fold_left (fun R r => if isZero (u_mass (snd r)) then R else uspAdd R (uspShift (v3_neg K (xl (fst r))) (snd r))) rs (xM x).
+Definition cbiG (t:tree X) : tree (X*USp) := inward cbiStepG t.
 End CBI.
 
 (** executable entry points for the correspondence run *)
 Record cbx := mkCbx { c_idx : nat; c_par : nat; c_l : Vec3 T; c_body : body }.
+Definition mkCbxB (i p:nat) (l:Vec3 T) (b:bodyB) : cbx := mkCbx i p l (toG b).
 Fixpoint buildT (fuel:nat) (bodies:list cbx) (x:cbx) : tree cbx :=
   match fuel with
   | O => Node x []
